@@ -39,7 +39,9 @@ ASSUMPTIONS = [
 FLOOR = {"quick": 800, "thorough": 20000}
 
 LANG_OF_DIR = {"c": "C", "cpp": "C++", "csharp": "C#", "java": "Java", "javascript": "JavaScript", "typescript": "TypeScript", "python": "Python"}
-COMMENT_BODIES = ["note", "x(y) { z }", "if (a) {", "}", "{", "def f(a):", "function g() {", "(", ")", "a = b;", "int f(int a) {", "\"", "'", "`", "see nocl"]
+COMMENT_BODIES = ["note", "x(y) { z }", "if (a) {", "}", "{", "def f(a):", "function g() {", "(", ")", "a = b;", "int f(int a) {", "\"", "'", "`", "see nocl",
+                  "not nocl", "keep (NOCL is elsewhere)", "form\x0cfeed"]
+BLANKS = ["  ", "\t", "        ", " \t ", "\x0c", "\x0b", " \x0c", "\x1c"]
 
 
 def corpus():
@@ -259,6 +261,8 @@ def _inside(base, line):
 
 def draw_plan(draw, lang, text, max_edits=30):
     boundaries, trailing = safe_lines(lang, text)
+    r = _base(lang, text)
+    name_lines = sorted({m[1] for m in r[1]} & set(trailing)) if r[0] == "ok" else []
     n = draw(st.integers(1, max_edits))
     edits = []
     styles = ["hash"] if lang == "Python" else ["line", "block", "mblock"]
@@ -269,15 +273,17 @@ def draw_plan(draw, lang, text, max_edits=30):
             if kind == "blank":
                 lines = [""] * draw(st.integers(1, 2))
             elif kind == "ws":
-                lines = [draw(st.sampled_from(["  ", "\t", "        ", " \t "]))]
+                lines = [draw(st.sampled_from(BLANKS))]
             else:
                 indent = draw(st.sampled_from(["", "", "  ", "    ", "\t", "            "]))
                 lines = comment_line(lang, draw(st.sampled_from(styles)), draw(st.sampled_from(COMMENT_BODIES)), indent)
             edits.append({"after": after, "lines": lines, "kind": kind})
         elif trailing:
             line = draw(st.sampled_from(trailing))
+            if name_lines and draw(st.integers(0, 3)) == 0:
+                line = draw(st.sampled_from(name_lines))  # the line of a function's name
             if kind == "trail_ws":
-                edits.append({"trail": line, "text": draw(st.sampled_from([" ", "\t", "   "])), "kind": kind})
+                edits.append({"trail": line, "text": draw(st.sampled_from([" ", "\t", "   ", "\x0c", " \x0b"])), "kind": kind})
             else:
                 body = draw(st.sampled_from(COMMENT_BODIES))
                 style = draw(st.sampled_from(styles))
@@ -414,7 +420,7 @@ def single_edits(col, lang, rel, stride, offset):
     base = r[1]
     boundaries, trailing = safe_lines(lang, text)
     styles = ["hash"] if lang == "Python" else ["line", "block", "mblock"]
-    variants = [("blank", [""]), ("ws", ["    "])] + [("comment", comment_line(lang, s, "x(y) {", "")) for s in styles]
+    variants = [("blank", [""]), ("ws", ["    "]), ("ws", ["\x0c"])] + [("comment", comment_line(lang, s, "x(y) {", "")) for s in styles]
     n = nt = 0
     for bi, after in enumerate(boundaries):
         if bi % stride != offset:
@@ -431,11 +437,16 @@ def single_edits(col, lang, rel, stride, offset):
             nt += inside
             if bad:
                 col.fail({"lang": lang, "corpus": rel, "edits": edits}, bad[0], bad[1])
+    starts = {m[1] for m in base}
     for ti, line in enumerate(trailing):
-        if ti % (stride * 3) != offset:
+        if ti % (stride * 3) != offset and not (line in starts and (stride == 1 or ti % 6 == offset % 6)):
             continue
-        txt = "  # c" if lang == "Python" else " // c(d) {"
+        txt = "  # see nocl" if lang == "Python" else " // c(d) { see nocl"
         edits = [{"trail": line, "text": txt, "kind": "trail_comment"}]
+        edits, dropped = withhold_known(lang, text, edits, known)
+        col.excluded_known += dropped
+        if not edits:
+            continue
         _, bad = check_plan(lang, text, edits)
         n += 1
         if bad:
